@@ -64,10 +64,18 @@ F(name, holds) == IF holds THEN {} ELSE {name}
 E(name, cond) == IF cond THEN {name} ELSE {}
 Near(x, y) == x - y <= TOL /\ y - x <= TOL
 
-PreOf(s) == [now |-> s.now, mon |-> s.mon, susp |-> s.susp, view |-> s.view]
+(* what the clauses of C20 are judged against.  The instances are the children  *)
+(* of /scheduled (`zk`), NOT the monitor's own grouping of them (`view`,         *)
+(* state['scheduled'] built by _scheduled_watch): zkfake delivers watches        *)
+(* synchronously, so at every evaluation the count the monitor acts on must be   *)
+(* the number of scheduled instances of the application - a watch that groups    *)
+(* them wrongly makes the monitor overshoot / under-delete.  (drift.step models  *)
+(* the code on its own view and reports view # zk separately.)                   *)
+PreOf(s) == [now |-> s.now, mon |-> s.mon, susp |-> s.susp, view |-> s.zk]
+ViewPre(s) == [now |-> s.now, mon |-> s.mon, susp |-> s.susp, view |-> s.view]
 (* the same, with the specification's own buckets in place of the code's *)
 GhostPre(s, g) ==
-  [now |-> s.now, susp |-> s.susp, view |-> s.view,
+  [now |-> s.now, susp |-> s.susp, view |-> s.zk,
    mon |-> [a \in DOMAIN s.mon |->
               IF a \in DOMAIN g
               THEN [s.mon[a] EXCEPT !.avail = g[a].avail, !.last = g[a].last, !.count = g[a].count]
@@ -143,7 +151,10 @@ EnvExplained(pre, line, post) ==
          /\ \A b \in DOMAIN pre.mon \ {a} : post.mon[b] = pre.mon[b]
          /\ IF nochange THEN post.mon[a] = pre.mon[a]
             ELSE post.mon[a] = [count |-> line.count, avail |-> CapOf(line.count, TOK),
-                                last |-> pre.now, policy |-> line.policy,
+                                last |-> pre.now,
+                                \* '' = not given: an existing monitor keeps its policy
+                                policy |-> IF line.policy = "" /\ a \in DOMAIN pre.mon
+                                           THEN pre.mon[a].policy ELSE line.policy,
                                 rate |-> 2 * line.count * 1000000]
     [] line.ev = "DeleteMonitor" ->
          /\ same("now") /\ same("susp") /\ same("view") /\ same("zk")
@@ -156,7 +167,7 @@ EnvExplained(pre, line, post) ==
 (* pre.waited is `last_waited` of this evaluation.  A monitor is rate limited  *)
 (* when it is active, misses instances and issued no create (allowed <= 0).   *)
 ExtLimited(pre, calls) ==
-  {a \in DOMAIN pre.mon : Active(PreOf(pre), a) /\ Missing(PreOf(pre), a) > 0
+  {a \in DOMAIN pre.mon : Active(ViewPre(pre), a) /\ Missing(ViewPre(pre), a) > 0
                           /\ Idx(calls, a, "create") = {}}
 ExtModified(pre, calls) ==
   \/ \E a \in DOMAIN pre.susp : a \notin DOMAIN pre.mon
